@@ -1,12 +1,132 @@
 import HcipyVerif.Model.Proto
+import HcipyVerif.Model.Zernike
 
-/-! Line-protocol front end of the C13 model (stub: not built yet). -/
+/-!
+Line-protocol front end of the C13 model.
+
+```
+C13 noll lo hi            -> ok n:m,n:m,…        noll_to_zernike(i), lo ≤ i < hi   (lo ≥ 1)
+C13 ansi lo hi            -> ok n:m,…            ansi_to_zernike(i), lo ≤ i < hi
+C13 tonoll n              -> ok i,i,…            zernike_to_noll(n, m), m = -n, -n+2, …, n  (x = not found)
+C13 toansi n              -> ok i,i,…            zernike_to_ansi(n, m), same m
+C13 tonoll1 n m / toansi1 n m                    single pair (any m)
+C13 pts polar [r…] [c…] [s…]                     store polar points (r, cos θ, sin θ)
+C13 pts cart [x…] [y…]                           store Cartesian points
+C13 mode n m D cutoff     -> ok [q…]             rational factor of zernike(n,m,D,·,cutoff) on the stored points
+C13 normsq n m            -> ok q                (n+1)·(2 if m≠0)
+C13 radial n m r          -> ok q                zernike_radial (repaired)
+C13 radialold n m r       -> ok q | nan          unrepaired recurrence (n-|m| even, |m| ≤ n)
+C13 memo D r c s old|new n:m:cut,…  -> ok [q…]   request history against one cache at one point
+```
+-/
 namespace HcipyVerif.Driver.C13
+open HcipyVerif.Proto HcipyVerif.Zernike
+
+inductive Pts where
+  | polar (p : List (Rat × Rat × Rat))
+  | cart (p : List (Rat × Rat))
 
 structure St where
-  dummy : Unit := ()
+  pts : Pts := .cart []
+
+def showPair (p : Nat × Int) : String := s!"{p.1}:{p.2}"
+
+def rowM (n : Nat) : List Int := (List.range (n + 1)).map fun (j : Nat) => 2 * (j : Int) - (n : Int)
+
+def zip3 : List Rat → List Rat → List Rat → Option (List (Rat × Rat × Rat))
+  | [], [], [] => some []
+  | a :: as, b :: bs, c :: cs => (zip3 as bs cs).map ((a, b, c) :: ·)
+  | _, _, _ => none
+
+def zip2 : List Rat → List Rat → Option (List (Rat × Rat))
+  | [], [] => some []
+  | a :: as, b :: bs => (zip2 as bs).map ((a, b) :: ·)
+  | _, _ => none
+
+def parseBool? (s : String) : Option Bool :=
+  if s == "1" then some true else if s == "0" then some false else none
+
+def parseReq? (s : String) : Option Req :=
+  match s.splitOn ":" with
+  | [n, m, c] => do pure ⟨← parseNat? n, ← parseInt? m, ← parseBool? c⟩
+  | _ => none
 
 def step (st : St) : List String → St × String
+  | ["reset"] => ({}, "ok")
+  | ["noll", lo, hi] =>
+    match parseNat? lo, parseNat? hi with
+    | some lo, some hi =>
+      if lo = 0 then (st, "err value") else
+      (st, "ok " ++ ",".intercalate ((List.range (hi - lo)).map fun k => showPair (nollToZernike (lo + k))))
+    | _, _ => (st, "bad-op")
+  | ["ansi", lo, hi] =>
+    match parseNat? lo, parseNat? hi with
+    | some lo, some hi =>
+      (st, "ok " ++ ",".intercalate ((List.range (hi - lo)).map fun k => showPair (ansiToZernike (lo + k))))
+    | _, _ => (st, "bad-op")
+  | ["tonoll", n] =>
+    match parseNat? n with
+    | some n => (st, "ok " ++ ",".intercalate ((rowM n).map fun m =>
+        match zernikeToNoll n m with | some i => toString i | none => "x"))
+    | none => (st, "bad-op")
+  | ["toansi", n] =>
+    match parseNat? n with
+    | some n => (st, "ok " ++ ",".intercalate ((rowM n).map fun m => toString (zernikeToAnsi n m)))
+    | none => (st, "bad-op")
+  | ["tonoll1", n, m] =>
+    match parseNat? n, parseInt? m with
+    | some n, some m => (st, match zernikeToNoll n m with | some i => s!"ok {i}" | none => "err value")
+    | _, _ => (st, "bad-op")
+  | ["toansi1", n, m] =>
+    match parseNat? n, parseInt? m with
+    | some n, some m => (st, s!"ok {zernikeToAnsi n m}")
+    | _, _ => (st, "bad-op")
+  | ["pts", "polar", rs, cs, ss] =>
+    match parseRatList? rs, parseRatList? cs, parseRatList? ss with
+    | some rs, some cs, some ss =>
+      match zip3 rs cs ss with
+      | some p => ({ st with pts := .polar p }, "ok")
+      | none => (st, "bad-op")
+    | _, _, _ => (st, "bad-op")
+  | ["pts", "cart", xs, ys] =>
+    match parseRatList? xs, parseRatList? ys with
+    | some xs, some ys =>
+      match zip2 xs ys with
+      | some p => ({ st with pts := .cart p }, "ok")
+      | none => (st, "bad-op")
+    | _, _ => (st, "bad-op")
+  | ["mode", n, m, D, cut] =>
+    match parseNat? n, parseInt? m, parseRat? D, parseBool? cut with
+    | some n, some m, some D, some cut =>
+      if D = 0 || !valid n m then (st, "err value") else
+      let out := match st.pts with
+        | .polar p => p.map fun (r, c, s) => modeQCut n m D r c s cut
+        | .cart p => p.map fun (x, y) => modeQXYCut n m D x y cut
+      (st, "ok " ++ showRatList out)
+    | _, _, _, _ => (st, "bad-op")
+  | ["normsq", n, m] =>
+    match parseNat? n, parseInt? m with
+    | some n, some m => (st, "ok " ++ showRat (normSq n m))
+    | _, _ => (st, "bad-op")
+  | ["radial", n, m, r] =>
+    match parseNat? n, parseInt? m, parseRat? r with
+    | some n, some m, some r =>
+      if !valid n m then (st, "err value") else (st, "ok " ++ showRat (radialEval n m.natAbs r))
+    | _, _, _ => (st, "bad-op")
+  | ["radialold", n, m, r] =>
+    match parseNat? n, parseInt? m, parseRat? r with
+    | some n, some m, some r =>
+      if !valid n m then (st, "err value") else
+      (st, match radialEvalOld n r ((n - m.natAbs) / 2) with | some q => "ok " ++ showRat q | none => "nan")
+    | _, _, _ => (st, "bad-op")
+  | ["memo", D, r, c, s, which, reqs] =>
+    match parseRat? D, parseRat? r, parseRat? c, parseRat? s, (reqs.splitOn ",").mapM parseReq? with
+    | some D, some r, some c, some s, some reqs =>
+      if D = 0 || reqs.any (fun q => !valid q.n q.m) then (st, "err value") else
+      if which == "new" then (st, "ok " ++ showRatList (runMemo D r c s reqs []))
+      else if which == "old" then (st, "ok " ++ showRatList (runMemoSeparatedOld D r c s reqs []))
+      else (st, "bad-op")
+    | _, _, _, _, _ => (st, "bad-op")
   | _ => (st, "bad-op")
 
 end HcipyVerif.Driver.C13
